@@ -90,13 +90,6 @@ Proof.
   eapply noacc_kill; eauto.
 Qed.
 
-(* state after a list of events (None: stuck on the way) *)
-Fixpoint exec (c : cfg) (s : st) (l : list op) : option st :=
-  match l with
-  | [] => Some s
-  | o :: t => match step c s o with Some (s1, _, _) => exec c s1 t | None => None end
-  end.
-
 Lemma acc_history c p pre : forall s0 s,
   exec c s0 pre = Some s -> acc_inb (ps s p) = true ->
   acc_inb (ps s0 p) = true \/
